@@ -324,6 +324,13 @@ func hdSdp(media int) string {
 	if media&4 != 0 {
 		s += "m=application 9 UDP/DTLS/SCTP webrtc-datachannel\r\nc=IN IP4 0.0.0.0\r\n"
 	}
+	// sections with port 0 and a=bundle-only (what browsers send with the max-bundle policy): the track is active
+	if media&8 != 0 {
+		s += "m=audio 0 UDP/TLS/RTP/SAVPF 111\r\nc=IN IP4 0.0.0.0\r\na=bundle-only\r\na=rtpmap:111 opus/48000/2\r\n"
+	}
+	if media&16 != 0 {
+		s += "m=video 0 UDP/TLS/RTP/SAVPF 96\r\nc=IN IP4 0.0.0.0\r\na=bundle-only\r\na=rtpmap:96 VP8/90000\r\n"
+	}
 	return s
 }
 
@@ -1102,8 +1109,8 @@ func (r *hdRun) digestTerm() string {
 		for _, p := range x.Pubs {
 			pubs |= 1 << map[string]int{"audio": 0, "video": 1, "screen": 2}[p]
 		}
-		sess = append(sess, fmt.Sprintf("(mksd %d %d %d %d %d %s %d %s %s %s %d %d %d %s %d)", x.Sid, x.Backend, kindNum[x.Kind], hdUserNum(x.User), hdUserNum(x.AuthUser),
-			roomKey(x.Room), rs, conn, coqBool(x.InCall), perms, pubs, len(x.Subs), x.Pending, coqBool(x.Counted), x.Parent))
+		sess = append(sess, fmt.Sprintf("(mksd %d %d %d %d %d %s %d %s %s %s %d %d %d %s %d %d)", x.Sid, x.Backend, kindNum[x.Kind], hdUserNum(x.User), hdUserNum(x.AuthUser),
+			roomKey(x.Room), rs, conn, coqBool(x.InCall), perms, pubs, len(x.Subs), x.Pending, coqBool(x.Counted), x.Parent, x.PubMedia))
 	}
 	var rooms []string
 	for _, x := range d.Rooms {
